@@ -208,3 +208,42 @@ def run(ctx):
     for c in ("readuleb128", "readsleb128", "readuleb128p1", "writeuleb128", "writesleb128"):
         ctx.require_counter(c)
     ctx.extra["exhaustive_part"] = "all 1- and 2-byte sequences"
+    passive_contracts(ctx)
+
+
+def passive_contracts(ctx):
+    """icontract postconditions on the real readers while generated and shipped DEX files are parsed (the readers are reached through the parser,
+    not called by the harness): every value the parser obtains must be a 32-bit quantity"""
+    import glob
+    import os
+    from vf.monitor import contracts
+    if not contracts.ensure_icontract():
+        ctx.inconclusive("icontract is not installed and could not be installed from the wheelhouse")
+        return
+    from androguard.core import dex
+    from vf.gen import classes as G
+    from vf.model import dexw as W
+    rec = contracts.Recorder()
+    undo = contracts.install_leb_contracts(rec)
+    try:
+        rng = ctx.rng("c03-passive")
+        datas = [W.write_dex(G.gen_model(rng)) for _ in range(40 if ctx.quick else 600)]
+        for p in sorted(glob.glob("/repo/tests/data/APK/*.dex")):
+            if os.path.getsize(p) < (20000 if ctx.quick else 700000):
+                datas.append(open(p, "rb").read())
+        for d in datas:
+            try:
+                dx = dex.DEX(d)
+                for m in dx.get_encoded_methods():
+                    m.get_code()
+            except Exception as e:
+                ctx.count("passive_parse_raised")
+            ctx.count("passive_dex_parsed")
+    finally:
+        undo()
+    for name, n in rec.evaluations.items():
+        ctx.count("contract_evaluations_" + name, n)
+        ctx.ev(n)
+    for name, detail in rec.failures:
+        ctx.violation("passive-" + name + "-out-of-range", "a LEB128 reader returned a value outside 32 bits while parsing a well-formed DEX file", {"value": detail})
+    ctx.require_counter("contract_evaluations_readuleb128-32bit", 100)
